@@ -8,7 +8,7 @@ import (
 
 func init() {
 	register(&propCheck{id: "C11", needRoot: true, run: checkC11,
-		explanation: "Decided statically (cost clause only): the descent functions Node.get, has, getByIndex and pathToLeaf are loop-free, make at most ONE recursive descent on any CFG path, and read at most 1, 1, 2 and 2 stored nodes per level respectively; summing callee costs along the longest path of each API function gives at most 2 stored-node reads per level (+ at most 2 constant) for Get / GetWithIndex / GetByIndex / Has and at most 10 per level (+10) for GetProof — the property's 2h+2 and 10h+10 given that the recursion depth is the height (assumed: tree shape). Also PASS: every path of recursiveSet / recursiveRemove that installs a child pointer into the copied node and returns it passes calcHeightAndSize and balance, except the value-replacement exit. Added in the build round: TABLE — balance, rotate, lookup, insert and remove decision tables (size / height recomputation and routing decisions that the rank arithmetic depends on). NOT decided: the AVL bound h <= 1.4405 log2(n+2) (numeric, depends on rotation correctness) and that lookup by rank and by key are inverse."})
+		explanation: "Decided statically (cost clause only): the descent functions Node.get, has, getByIndex and pathToLeaf are loop-free, make at most ONE recursive descent on any CFG path, and read at most 1, 1, 2 and 2 stored nodes per level respectively; summing callee costs along the longest path of each API function gives at most 2 stored-node reads per level (+ at most 2 constant) for Get / GetWithIndex / GetByIndex / Has and at most 10 per level (+10) for GetProof — the property's 2h+2 and 10h+10 given that the recursion depth is the height (assumed: tree shape). Also PASS: every path of recursiveSet / recursiveRemove that installs a child pointer into the copied node and returns it passes calcHeightAndSize and balance, except the value-replacement exit. Added in the build round: TABLE — balance, rotate, lookup, insert and remove decision tables (size / height recomputation and routing decisions that the rank arithmetic depends on). NOT decided: the AVL bound h <= 1.4405 log2(n+2) (numeric, depends on rotation correctness) and that lookup by rank and by key are inverse. Rules added in the later seeding rounds (each listed with what it decides in this file's rule table) are described in DESIGN.md §3 \"Third and fourth seeding rounds\" and Appendix C3–C5."})
 }
 
 type costInfo struct {
